@@ -15,7 +15,9 @@ func main() {
 			"optional HBH/E2E headers; UDP/TCP/SCMP/other payloads) on random link-type configurations, and a "+
 			"mutation stream (SegID, timestamp, ExpTime, ConsIngress, ConsEgress, MAC bytes of the current and "+
 			"next hop, foreign key, expired / barely valid hop with a correct MAC, CurrINF/CurrHF, SrcIA/DstIA, "+
-			"hosts, ingress link, flags, reserved bits, payload length); expiries >= 30 s from now. "+
+			"hosts, ingress link, flags, reserved bits, payload length); expiries >= 30 s from now; "+
+			"`pair` cases: [valid; MAC-bit-flipped copy], [valid; valid; flipped], [flipped; valid] (bits 0..47) back to "+
+			"back on ONE reused scionPacketProcessor, each packet compared with the model's single-packet verdict. "+
 			"non-trivial = the packet reached verifyCurrentMAC or failed validateHopExpiry "+
 			"(forwarded, delivered, or answered with InvalidHopFieldMAC / PathExpired / a later check)",
 		func(x *rtgen.Ctx) {
@@ -32,6 +34,10 @@ func main() {
 			}
 			nv := x.Run.Count(400, 20000)
 			nm := x.Run.Count(1000, 60000)
+			// back-to-back sequences on ONE reused processor: the verdict for a packet must not
+			// depend on what the processor verified before (valid packet, then its MAC-tampered copy)
+			x.Pairs("pair", 4, x.Run.Count(144, 12000), []string{"inbound", "transit", "first-hop", "peer-in",
+				"peer-out", "inbound", "transit", "xover"})
 			x.RandomStreams(8, nv, nm, nil, []string{
 				"segid", "timestamp", "exptime", "consingress", "consegress", "mac", "mac-next", "key",
 				"expired", "expired-next", "barely-valid", "mac", "expired", "currhf", "currinf", "srcia",
